@@ -222,3 +222,28 @@ func positiveAt(v ssa.Value, b *ssa.BasicBlock) bool {
 	}
 	return false
 }
+
+
+// storesParamIntoField: g stores one of its parameters into the field named fld of its receiver (exitScope(restore)
+// doing `a.curScope = restore` itself); it returns the parameter's index, or -1
+func storesParamIntoField(g *ssa.Function, fld string) int {
+	if g == nil || g.Blocks == nil {
+		return -1
+	}
+	for _, b := range g.Blocks {
+		for _, ins := range b.Instrs {
+			st, ok := ins.(*ssa.Store)
+			if !ok {
+				continue
+			}
+			fa, ok := st.Addr.(*ssa.FieldAddr)
+			if !ok || fieldName(fa.X.Type(), fa.Field) != fld {
+				continue
+			}
+			if pm, ok := st.Val.(*ssa.Parameter); ok {
+				return paramIndex(g, pm)
+			}
+		}
+	}
+	return -1
+}
